@@ -758,6 +758,8 @@ qb_ipcs_dispatch_connection_request(int32_t fd, int32_t revents, void *data)
 		res = -EINVAL;
 		goto dispatch_cleanup;
 	}
+	/* msg_process() may disconnect, keep the connection until we are done */
+	qb_ipcs_connection_ref(c);
 
 	if (revents & POLLNVAL) {
 		qb_util_log(LOG_DEBUG, "NVAL conn (%s)", c->description);
@@ -811,6 +813,11 @@ qb_ipcs_dispatch_connection_request(int32_t fd, int32_t revents, void *data)
 	do {
 		res = _process_request_(c, IPC_REQUEST_TIMEOUT);
 
+		if (c->state != QB_IPCS_CONNECTION_ESTABLISHED) {
+			/* already disconnected from within msg_process() */
+			res = 0;
+			goto dispatch_cleanup;
+		}
 		if (res == -ESHUTDOWN) {
 			goto dispatch_cleanup;
 		}
@@ -853,6 +860,7 @@ dispatch_cleanup:
 	if (res != 0) {
 		qb_ipcs_disconnect(c);
 	}
+	qb_ipcs_connection_unref(c);
 	return res;
 }
 
